@@ -20,7 +20,15 @@ def run(ctx):
     r = ctx.tlc("MC_DualAvg", workers=4)
     ctx.require_ok(r, "MC_DualAvg")
     tp = ctx.path("dualavg.ndjson")
-    res = ctx.harness(["c04", "record", "--seed", ctx.seed, "--out", tp] + (["--thorough"] if thorough else []), timeout=3000)[-1]
+    try:
+        res = ctx.harness(["c04", "record", "--seed", ctx.seed, "--out", tp] + (["--thorough"] if thorough else []), timeout=400)[-1]
+    except vlib.ToolError as e:
+        if "timed out" not in str(e):
+            raise
+        # a step size of exactly zero makes the leapfrog map the identity: the trajectory is doubled for ever
+        ctx.violation("dualavg-hang", "the recording run (a few thousand NUTS transitions, about 10 s) did not finish within 400 s: a chain hangs "
+                      "-- a step size that reached 0 (or a non-finite one) never U-turns", {"direction": "trace", "what": str(e)})
+        return
     lines = open(tp).read().splitlines()
     evs = [json.loads(x) for x in lines]
     ctx.cov["evaluations"] += len(evs)
@@ -76,7 +84,7 @@ def run(ctx):
     okc, _, _ = ctx.validate_trace("Trace_DualAvg", ctx.write_ndjson("da_c.ndjson", bad))
     ctx.selftest("trace: step size changed after warm-up", not okc)
     ctx.cov["rule"] = ("MC_DualAvg: phase machine over 3 run() calls (adapt exactly while m <= n_discard, frozen afterwards, counter persists); traces: "
-                       "warm-up lengths 0,1,3,50,300 (500, 2000 thorough), requested acceptance 0.55..0.95, repeated run() calls, Gaussian/Rosenbrock/"
+                       "warm-up lengths 0,1,3,50,300 (500, 2000 thorough), requested acceptance 0.55..0.95, repeated run() calls incl. RESUMED warm-ups (a later call adapts again), Gaussian/Rosenbrock/"
                        "half-line targets, f32 and f64, plus the start-up heuristic through its wrapper and the per-chain start value / shrinkage point of 4- and 5-chain NUTS samplers (run and run_progress); non-trivial = adapting transitions")
     ctx.cov["exhaustive"] = False
 
